@@ -7,6 +7,7 @@ import (
 	"bytes"
 	"flag"
 	"fmt"
+	"image"
 	"image/color"
 	"math"
 
@@ -96,7 +97,30 @@ func oneCase(o *out.W, r *rng.R, i int) {
 	offcanvas := false
 	var before [][]float64
 	var paths []*canvas.Path
+	var imgs []*image.RGBA
+	var imgsBefore [][]byte
 	for l := 0; l < nl; l++ {
+		if r.P(1, 7) {
+			// an image layer: an opaque image of one colour, drawn upright (translation and scale only); it paints its rectangle, and
+			// rendering must leave the image itself unchanged
+			iw, ih := r.Range(3, 8), r.Range(3, 8)
+			col := colors[(l+int(uint(i)%3))%len(colors)]
+			im := image.NewRGBA(image.Rect(0, 0, iw, ih))
+			for k := 0; k < iw*ih; k++ {
+				im.Pix[4*k], im.Pix[4*k+1], im.Pix[4*k+2], im.Pix[4*k+3] = col.R, col.G, col.B, 255
+			}
+			sc := math.Min(W, H) / 2 / float64(max(iw, ih))
+			m := canvas.Matrix{{sc, 0, W/2 - sc*float64(iw)/2 + float64(r.Range(-8, 8))/4}, {0, sc, H/2 - sc*float64(ih)/2 + float64(r.Range(-8, 8))/4}}
+			poly := []ipt{toPx(m, 0, 0), toPx(m, float64(iw), 0), toPx(m, float64(iw), float64(ih)), toPx(m, 0, float64(ih))}
+			layers = append(layers, fmt.Sprintf("(LFill 0%%Z %s %s)", cq.List([]string{term(poly)}), cq.Z(int64(l+1))))
+			descs = append(descs, layerDesc{"image", fmt.Sprintf("image %dx%d", iw, ih), 0, 0, m, col})
+			imgs = append(imgs, im)
+			imgsBefore = append(imgsBefore, append([]byte{}, im.Pix...))
+			paths = append(paths, &canvas.Path{})
+			before = append(before, nil)
+			c.RenderImage(im, m)
+			continue
+		}
 		if r.P(1, 5) {
 			// a curved fill layer: a cubic that returns to its start (drop), an ellipse of two arcs, or a blob of two quadratics; the
 			// judge gets a dense sampling of the curve (the one-pixel margin dwarfs the sampling error)
@@ -308,6 +332,11 @@ func oneCase(o *out.W, r *rng.R, i int) {
 		return
 	}
 	desc["second_render_identical"] = bytes.Equal(img1, img2)
+	imgsSame := true
+	for j, im := range imgs {
+		imgsSame = imgsSame && bytes.Equal(im.Pix, imgsBefore[j])
+	}
+	desc["images_unchanged"] = imgsSame
 	mut := false
 	for j, p := range paths {
 		d := p.Data()
